@@ -7,6 +7,7 @@ spec = {
   "uni":   [i, ...] | None,                     # universe members in order
   "attrs": {"<i>": {name: value}},              # optional extra attributes
   "extra": [[k, i], ...],                       # edge k additionally lists vertex i (not one of its ends)
+  "edges_gone": [[cls, i, j, "l"|"v"|"s", pos]], # former links (i != j), created at creation position pos, removed again
   "uni_gone": [[i, "u"|"v"], ...],              # non-members that were members once and left (universe / vertex side)
 }
 """
@@ -63,6 +64,39 @@ def build(spec) -> Built:
             g.verts[i], g.verts[j], attributes={"tag": tag, "eidx": k}
         )
         g.edges.append(e)
+    # former links: created in between the others (position pos in creation order) and taken away again once all
+    # links exist, through one of the public removal paths; the final graph is exactly spec["edges"]
+    gone = sorted(spec.get("edges_gone") or [], key=lambda x: -x[4])
+    if gone:
+        ghosts = []
+        final = list(g.edges)
+        for e in final:
+            for v in {id(x): x for x in e.vertices if x is not None}.values():
+                v.remove_from_link(e)
+        # rebuild in the interleaved order so that every vertex's link list saw the ghosts come and go
+        order = [("real", k) for k in range(len(spec["edges"]))]
+        for gi, (cname, i, j, path, pos) in enumerate(gone):
+            order.insert(min(pos, len(order)), ("ghost", gi))
+        g.edges = [None] * len(spec["edges"])
+        for kind, k in order:
+            if kind == "real":
+                ed = spec["edges"][k]
+                tag = ed[3] if len(ed) > 3 else k
+                g.edges[k] = zoo.EDGE_CLASSES[ed[0]](g.verts[ed[1]], g.verts[ed[2]], attributes={"tag": tag, "eidx": k})
+            else:
+                cname, i, j, path, pos = gone[k]
+                ghosts.append((zoo.EDGE_CLASSES[cname](g.verts[i], g.verts[j], attributes={"tag": 0, "eidx": -1 - k}), path))
+        for e, path in ghosts:
+            a, b = e.v1, e.v2
+            if path == "l":
+                e.unlink_from(a)
+                e.unlink_from(b)
+            elif path == "v":
+                a.remove_from_link(e)
+                b.remove_from_link(e)
+            else:
+                e.v1 = None
+                e.v2 = None
     for k, i in spec.get("extra") or []:
         # a two-ended link that also lists a further vertex (Link.add_vertex): its ends stay v1 / v2
         if k < len(g.edges):
@@ -121,6 +155,8 @@ def features(spec) -> set:
                 f.add("bridge_out_of_universe")
         if spec.get("uni_gone"):
             f.add("former_members")
+    if spec.get("edges_gone"):
+        f.add("former_links")
     return f
 
 
@@ -140,6 +176,17 @@ def rand_spec(rng: random.Random, nmax=6, mmax=12, vcls=VCLS_MIX, ecls=ECLS_ALL,
         edges.append([rng.choice(ecls), i, j, rng.randrange(6)])
     uni = _rand_uni(rng, n, uni_mode)
     spec = {"verts": verts, "edges": edges, "uni": uni}
+    if n >= 2 and rng.random() < 0.3:
+        gone = []
+        for _ in range(rng.randint(1, 3)):
+            i = rng.randrange(n)
+            j = rng.choice([x for x in range(n) if x != i])
+            if edges and rng.random() < 0.5:
+                e0 = rng.choice(edges)
+                if e0[1] != e0[2]:
+                    i, j = e0[1], e0[2]  # parallel to a link that stays
+            gone.append([rng.choice(ecls), i, j, rng.choice("lvs"), rng.randint(0, m)])
+        spec["edges_gone"] = gone
     if uni is not None and rng.random() < 0.25:
         spec["uni_cls"] = "FalsyUniverse"
     if uni is not None and len(set(uni)) < n and rng.random() < 0.4:
